@@ -128,8 +128,8 @@ func hC08iter(p, T, mode int) {
 	vCover("C08.iter.done")
 }
 
-func H_C08_iter_q() { c := vCase(); hC08iter(c%2, 6+c/2, 0) }  // p in {0,1}, T = 6..
-func H_C08_iter_s() { c := vCase(); hC08iter(c%2, c/2, 0) }    // short tails T = 0..5
+func H_C08_iter_q()   { c := vCase(); hC08iter(c%2, 6+c/2, 0) } // p in {0,1}, T = 6..
+func H_C08_iter_s()   { c := vCase(); hC08iter(c%2, c/2, 0) }   // short tails T = 0..5
 func H_C08_iter_big() { c := vCase(); hC08iter(c%2, 6+c/2, 1) } // claimed size > 64
 
 // hC08two: a damaged (older) segment followed by an intact newer one: after the
